@@ -108,6 +108,23 @@ class FnItem:
         return f"Fn({self.text[:40]})"
 
 
+class Seq:
+    """Abstract Vec: concatenation of parts ('item', v) | ('rep', v, n: BV64) | ('opq', term, len: BV64)."""
+    __slots__ = ("parts",)
+
+    def __init__(self, parts=()):
+        self.parts = tuple(parts)
+
+    def __repr__(self):
+        return "Seq[" + ", ".join(p[0] + ":" + str(p[1])[:40] for p in self.parts) + "]"
+
+    def length(self):
+        n = z3.BitVecVal(0, 64)
+        for p in self.parts:
+            n = n + (z3.BitVecVal(1, 64) if p[0] == "item" else p[2])
+        return z3.simplify(n)
+
+
 UNIT = Agg("tuple", None, ())
 
 BUILTIN_ENUMS = {
@@ -179,7 +196,7 @@ class PathEnd:
 
 
 class Frame:
-    __slots__ = ("fn", "locals", "bb", "dest", "retbb", "visited", "havocked")
+    __slots__ = ("fn", "locals", "bb", "dest", "retbb", "visited", "havocked", "wrap")
 
     def __init__(self, fn):
         self.fn = fn
@@ -189,12 +206,14 @@ class Frame:
         self.retbb = None
         self.visited = ()
         self.havocked = frozenset()
+        self.wrap = None
 
     def copy(self):
         f = Frame(self.fn)
         f.locals = dict(self.locals)
         f.bb, f.dest, f.retbb = self.bb, self.dest, self.retbb
         f.visited, f.havocked = self.visited, self.havocked
+        f.wrap = self.wrap
         return f
 
 
@@ -293,6 +312,17 @@ class Exec:
             return self.to_val(st, self.read_ref(st, v))
         if isinstance(v, StrC):
             return self.strc(v.s)
+        if isinstance(v, Seq):
+            t = z3.Const("seq:nil", Val)
+            for p_ in v.parts:
+                if p_[0] == "item":
+                    t = self.uf("seq:snoc", Val, Val, Val)(t, self.to_val(st, p_[1]))
+                elif p_[0] == "rep":
+                    t = self.uf("seq:cat", Val, Val, Val)(
+                        t, self.uf("seq:rep", Val, z3.BitVecSort(64), Val)(self.to_val(st, p_[1]), p_[2]))
+                else:
+                    t = self.uf("seq:cat", Val, Val, Val)(t, p_[1])
+            return t
         if isinstance(v, FnItem):
             return z3.Const("fn:" + self.canon_fn(v.text), Val)
         if isinstance(v, Agg):
@@ -576,6 +606,14 @@ class Exec:
             else:
                 ch = body
             return z3.BitVecVal(ord(ch), 32)
+        m = re.fullmatch(r"(?:core|std)::num::<impl ([iu](?:8|16|32|64|128|size))>::(MAX|MIN)", t)
+        if m:
+            ty, w = m.group(1), INT_W[m.group(1)]
+            if is_signed(ty):
+                v = (1 << (w - 1)) - 1 if m.group(2) == "MAX" else -(1 << (w - 1))
+            else:
+                v = (1 << w) - 1 if m.group(2) == "MAX" else 0
+            return z3.BitVecVal(v, w)
         if t.startswith("ZeroSized: "):
             return FnItem(t[len("ZeroSized: "):])
         if t == "()":
@@ -998,6 +1036,8 @@ class Exec:
                     return
                 st.frames.pop()
                 caller = st.frames[-1]
+                if fr.wrap is not None:
+                    rv = fr.wrap(rv)
                 if fr.dest is not None:
                     self.write_ref(st, self.lval(st, caller, fr.dest), rv)
                 if fr.retbb is None:
@@ -1180,6 +1220,18 @@ class Exec:
                 while "{" not in hdr and kk < len(src):
                     hdr += " " + src[kk].strip()
                     kk += 1
+                if src[line - 1].lstrip().startswith("#[derive"):
+                    cm = re.search(r"<impl at [^:>]+:(\d+):(\d+): (\d+):(\d+)>", fname)
+                    tr = src[line - 1][int(cm.group(2)) - 1:int(cm.group(4)) - 1] if cm else None
+                    ty = None
+                    for k2 in range(line, min(line + 12, len(src))):
+                        dm = re.match(r"^\s*(?:pub(?:\([^)]*\))?\s+)?(?:struct|enum)\s+([A-Za-z_][A-Za-z0-9_]*)", src[k2])
+                        if dm:
+                            ty = dm.group(1)
+                            break
+                    if tr and ty:
+                        idx.setdefault((ty, tr, name) + tuple(tail), []).append(fn)
+                    continue
                 m = re.match(r"^\s*(?:unsafe\s+)?impl(?:<[^>]*>)?\s+(.*?)\s*(?:where.*)?\{", hdr)
                 if not m:
                     continue
@@ -1199,45 +1251,70 @@ class Exec:
         dest_ty = self.place_ty(fr, dest) if dest is not None else "()"
         args = [self.operand(st, fr, a) for a in argops]
         argtys = [self.op_ty(fr, a) for a in argops]
+        r = NotImplemented
         # 1. python models
         for pat, h in self.models + STD_MODELS:
             if re.search(pat, callee):
                 r = h(self, st, fr, callee, args, argtys, dest_ty)
-                if r is NotImplemented:
-                    continue
-                if isinstance(r, Panic):
-                    if r.cond is None:
-                        self._end(ends, "panic", st, detail=r.msg)
-                        st.frames = None
-                        return
-                    sp = st.fork()
-                    sp.cond.append(r.cond)
-                    if self.feasible(sp.cond):
-                        self._end(ends, "panic", sp, detail=r.msg)
-                    st.cond.append(z3.Not(r.cond))
-                    r = r.value
-                if dest is not None:
-                    self.write_ref(st, self.lval(st, fr, dest), r)
-                if retbb is None:
-                    self._end(ends, "diverge", st, detail=callee[:80])
-                    st.frames = None
-                    return
-                fr.bb = retbb
-                return
+                if r is not NotImplemented:
+                    break
         # 2. inlining
-        if any(p.search(callee) for p in self.inline) and len(st.frames) < self.max_depth:
+        if r is NotImplemented and any(p.search(callee) for p in self.inline):
+            if len(st.frames) >= self.max_depth:
+                raise Unsupported("inline depth exceeded at " + callee[:100])
             target = self.resolve(callee)
-            if target is not None and target.blocks:
-                nf = Frame(target)
-                for (n, _ty), v in zip(target.args, args):
-                    nf.locals[n] = self.new_cell(st, v)
-                nf.dest, nf.retbb = dest, retbb
-                st.frames.append(nf)
-                self.stats["inlined"] += 1
-                return
-            raise Unsupported("cannot resolve callee to inline: " + callee[:120])
+            if target is None or not target.blocks:
+                raise Unsupported("cannot resolve callee to inline: " + callee[:120])
+            r = Inline(target, args)
         # 3. uninterpreted
-        r = self.uf_call(st, callee, args, argtys, dest_ty)
+        if r is NotImplemented:
+            r = self.uf_call(st, callee, args, argtys, dest_ty, fr=fr)
+        outs = r.alts if isinstance(r, Fork) else [(None, r)]
+        live = []
+        for c, res in outs:
+            if c is not None:
+                c = z3.simplify(c)
+                if z3.is_false(c):
+                    continue
+                if z3.is_true(c):
+                    c = None
+                elif not self.feasible(st.cond + [c]):
+                    self.stats["pruned"] += 1
+                    continue
+            live.append((c, res))
+        if not live:
+            st.frames = None
+            return
+        states = [st] + [st.fork() for _ in live[1:]]
+        for (c, res), s2 in zip(live, states):
+            if c is not None:
+                s2.cond.append(c)
+            self._apply_result(s2, dest, retbb, res, callee, ends)
+            if s2 is not st and s2.frames is not None:
+                work.append(s2)
+
+    def _apply_result(self, st, dest, retbb, r, callee, ends):
+        fr = st.frames[-1]
+        if isinstance(r, Panic):
+            if r.cond is None:
+                self._end(ends, "panic", st, detail=r.msg)
+                st.frames = None
+                return
+            sp = st.fork()
+            sp.cond.append(r.cond)
+            if self.feasible(sp.cond):
+                self._end(ends, "panic", sp, detail=r.msg)
+            st.cond.append(z3.Not(r.cond))
+            r = r.value
+        if isinstance(r, Inline):
+            nf = Frame(r.fn)
+            for (n, _ty), v in zip(r.fn.args, r.args):
+                nf.locals[n] = self.new_cell(st, v)
+            nf.dest, nf.retbb = dest, retbb
+            nf.wrap = r.wrap
+            st.frames.append(nf)
+            self.stats["inlined"] += 1
+            return
         if dest is not None:
             self.write_ref(st, self.lval(st, fr, dest), r)
         if retbb is None:
@@ -1246,7 +1323,7 @@ class Exec:
             return
         fr.bb = retbb
 
-    def uf_call(self, st, callee, args, argtys, dest_ty, record=True):
+    def uf_call(self, st, callee, args, argtys, dest_ty, record=True, fr=None):
         name = normalize_callee(callee)
         vals = [self.to_val(st, a) for a in args]
         self.stats["uf_calls"] += 1
@@ -1257,7 +1334,8 @@ class Exec:
             return self.uf("call:" + name + "/" + str(len(vals)), *([Val] * len(vals) + [sort]))(*vals)
         r = self.from_uf(mk, dest_ty)
         ev = {"callee": callee, "name": name, "args": args, "argvals": vals, "ret": r,
-              "ncond": len(st.cond)}
+              "ncond": len(st.cond), "in": self.canon_item(fr.fn) if fr is not None else None,
+              "depth": len(st.frames)}
         # havoc pointees of &mut arguments
         for i, (a, ty) in enumerate(zip(args, argtys)):
             if isinstance(a, Ref) and is_mut_ref(ty):
@@ -1274,6 +1352,18 @@ class Exec:
 class Panic:
     def __init__(self, cond, msg, value=None):
         self.cond, self.msg, self.value = cond, msg, value
+
+
+class Inline:
+    """Model result: continue by executing MIR function fn with args (result goes to the call's destination)."""
+    def __init__(self, fn, args, wrap=None):
+        self.fn, self.args, self.wrap = fn, args, wrap
+
+
+class Fork:
+    """Model result: alternatives [(cond, value | Inline | Panic)]."""
+    def __init__(self, alts):
+        self.alts = alts
 
 
 def _root_local(p):
@@ -1368,7 +1458,9 @@ def m_unwrap(ex, st, fr, callee, args, argtys, dty):
         good, var = 1, "Err"
     else:
         good, var = 0, "Ok"
-    payload = ex.project(st, ex.project(st, v, ("v", var)), ("f", 0), dty)
+    payload = variant_payload(ex, st, v, var, dty)
+    if payload is None:
+        return Panic(None, f"{callee[:60]} on wrong variant")
     bad = z3.simplify(d != good)
     if z3.is_false(bad):
         return payload
@@ -1446,7 +1538,67 @@ def m_from_residual(ex, st, fr, callee, args, argtys, dty):
 
 
 def m_vec_new(ex, st, fr, callee, args, argtys, dty):
-    return Agg("vec", None, [])
+    return Seq()
+
+
+def _as_seq(ex, st, v):
+    v = _deref_val(ex, st, v)
+    if isinstance(v, Seq):
+        return v
+    if isinstance(v, Agg) and v.ty in ("array", "vec"):
+        return Seq([("item", f) for f in v.fields])
+    if isinstance(v, Opq):
+        t = ex.to_val(st, v)
+        return Seq([("opq", t, ex.uf("seq:len", Val, z3.BitVecSort(64))(t))])
+    raise Unsupported(f"not a vector: {type(v).__name__}")
+
+
+def m_vec_push(ex, st, fr, callee, args, argtys, dty):
+    if not isinstance(args[0], Ref):
+        return NotImplemented
+    v = _as_seq(ex, st, args[0])
+    ex.write_ref(st, args[0], Seq(v.parts + (("item", args[1]),)))
+    return UNIT
+
+
+def m_vec_append(ex, st, fr, callee, args, argtys, dty):
+    if not (isinstance(args[0], Ref) and isinstance(args[1], Ref)):
+        return NotImplemented
+    a, b = _as_seq(ex, st, args[0]), _as_seq(ex, st, args[1])
+    ex.write_ref(st, args[0], Seq(a.parts + b.parts))
+    ex.write_ref(st, args[1], Seq())
+    return UNIT
+
+
+def m_vec_from_elem(ex, st, fr, callee, args, argtys, dty):
+    n = args[1]
+    if not z3.is_bv(n):
+        return NotImplemented
+    st.events.append({"callee": callee, "name": "from_elem", "args": args,
+                      "argvals": [ex.to_val(st, args[0]), ex.to_val(st, n)], "ret": None,
+                      "in": ex.canon_item(fr.fn), "depth": len(st.frames), "ncond": len(st.cond)})
+    return Seq([("rep", args[0], n)])
+
+
+def m_vec_pop(ex, st, fr, callee, args, argtys, dty):
+    if not isinstance(args[0], Ref):
+        return NotImplemented
+    v = _as_seq(ex, st, args[0])
+    if not v.parts:
+        return Agg("Option", "None", [])
+    last = v.parts[-1]
+    if last[0] == "item":
+        ex.write_ref(st, args[0], Seq(v.parts[:-1]))
+        return Agg("Option", "Some", [last[1]])
+    raise Unsupported("pop from a vector whose last part is symbolic")
+
+
+def m_vec_len(ex, st, fr, callee, args, argtys, dty):
+    return _as_seq(ex, st, args[0]).length()
+
+
+def m_vec_is_empty(ex, st, fr, callee, args, argtys, dty):
+    return _as_seq(ex, st, args[0]).length() == 0
 
 
 def m_box_uninit(ex, st, fr, callee, args, argtys, dty):
@@ -1456,7 +1608,7 @@ def m_box_uninit(ex, st, fr, callee, args, argtys, dty):
 def m_box_into_vec(ex, st, fr, callee, args, argtys, dty):
     v = _deref_val(ex, st, args[0])
     if isinstance(v, Agg) and v.ty == "array":
-        return Agg("vec", None, v.fields)
+        return Seq([("item", f) for f in v.fields])
     return NotImplemented
 
 
@@ -1468,7 +1620,82 @@ def m_bool_then_some(ex, st, fr, callee, args, argtys, dty):
     return NotImplemented
 
 
+def fn_of_value(ex, v):
+    """MIR function behind a closure / fn-item value (or None)."""
+    if isinstance(v, Agg) and v.ty == "closure":
+        text = v.variant
+    elif isinstance(v, FnItem):
+        text = v.text
+    else:
+        return None
+    m = re.match(r"^\{closure@([^}]*)\}$", text.strip())
+    if m:
+        cm = getattr(ex.mir, "_closure_fns", None)
+        if cm is None:
+            cm = ex.mir._closure_fns = {}
+            for fname, fn in ex.mir.fns.items():
+                if "{closure#" in fname and fn.args:
+                    k = re.search(r"\{closure@([^}]*)\}", fn.args[0][1])
+                    if k:
+                        cm[k.group(1)] = fn
+        return cm.get(m.group(1))
+    return ex.resolve(text)
+
+
+def closure_call(ex, st, fv, params, wrap=None):
+    """Inline call of a closure / fn item value with the given parameter values."""
+    fn = fn_of_value(ex, fv)
+    if fn is None or not fn.blocks:
+        return None
+    if "{closure#" in fn.name:
+        envty = fn.args[0][1].strip()
+        env = Ref(ex.new_cell(st, fv)) if envty.startswith("&") else fv
+        args = [env] + list(params)
+    else:
+        args = list(params)
+    return Inline(fn, args, wrap)
+
+
+def variant_payload(ex, st, v, variant, ty):
+    """Payload (field 0) of `variant` of enum value v, or None when v is concretely another variant."""
+    if isinstance(v, Agg):
+        if v.variant != variant:
+            return None
+        return v.fields[0] if v.fields else UNIT
+    return ex.project(st, ex.project(st, v, ("v", variant)), ("f", 0), ty)
+
+
+def m_option_map_or(ex, st, fr, callee, args, argtys, dty):
+    opt, default, f = args
+    v = _deref_val(ex, st, opt)
+    d = ex.discr(st, v, argtys[0])
+    alts = [(d == 0, default)]
+    payload = variant_payload(ex, st, v, "Some", _generic_arg(argtys[0], 0))
+    if payload is not None:
+        inl = closure_call(ex, st, f, [payload])
+        if inl is None:
+            return NotImplemented
+        alts.append((d == 1, inl))
+    return Fork(alts)
+
+
+def m_option_map(ex, st, fr, callee, args, argtys, dty):
+    opt, f = args
+    v = _deref_val(ex, st, opt)
+    d = ex.discr(st, v, argtys[0])
+    alts = [(d == 0, Agg("Option", "None", []))]
+    payload = variant_payload(ex, st, v, "Some", _generic_arg(argtys[0], 0))
+    if payload is not None:
+        inl = closure_call(ex, st, f, [payload], wrap=lambda r: Agg("Option", "Some", [r]))
+        if inl is None:
+            return NotImplemented
+        alts.append((d == 1, inl))
+    return Fork(alts)
+
+
 STD_MODELS = [
+    (r"^Option::<.*>::map_or::<", m_option_map_or),
+    (r"^Option::<.*>::map::<", m_option_map),
     (r"^<.* as Clone>::clone$", m_clone),
     (r"^<.* as (Deref|DerefMut)>::deref(_mut)?$", m_identity),
     (r"^<.* as AsRef<.*>>::as_ref$", m_identity),
@@ -1483,6 +1710,12 @@ STD_MODELS = [
     (r"^<.* as (std::ops::)?Try>::branch$", m_try_branch),
     (r"^<.* as (std::ops::)?FromResidual<.*>>::from_residual$", m_from_residual),
     (r"^Vec::<.*>::new$", m_vec_new),
+    (r"^Vec::<.*>::push$", m_vec_push),
+    (r"^Vec::<.*>::append$", m_vec_append),
+    (r"^Vec::<.*>::pop$", m_vec_pop),
+    (r"^Vec::<.*>::len$", m_vec_len),
+    (r"^Vec::<.*>::is_empty$", m_vec_is_empty),
+    (r"^std::vec::from_elem::<", m_vec_from_elem),
     (r"^Box::<\[.*\]>::new_uninit$", m_box_uninit),
     (r"^std::boxed::box_assume_init_into_vec_unsafe::<", m_box_into_vec),
     (r"^must_use::<", m_must_use),
